@@ -371,7 +371,7 @@ pub fn execute(case: &Case) -> Outcome {
                     Err(e) => conn_class(&e),
                 });
             }
-            for _ in 0..3 {
+            for call in 0..3 {
                 let r = match &mut driver {
                     Driver::Srv(conn) => block_on(&h, async {
                         match conn.accept().await {
@@ -380,6 +380,8 @@ pub fn execute(case: &Case) -> Outcome {
                             Err(e) => conn_class(&e),
                         }
                     }),
+                    // (the last call goes through the public wrapper wait_idle())
+                    Driver::Cli(conn) if call == 2 => block_on(&h, async { conn_class(&conn.wait_idle().await) }),
                     Driver::Cli(conn) => block_on(&h, async { conn_class(&std::future::poll_fn(|cx| conn.poll_close(cx)).await) }),
                 };
                 res.lock().unwrap().push(r);
